@@ -33,6 +33,7 @@ def zmat_term(M):
 
 
 class Table(Suite):
+    scaled_rate = 0.1        # the library gets the scheme times a power of two; tables and scores are divided back (exactly) before Coq
     name = "table"
     imports = ["Scheme", "Rank", "Judge.JC02"]
     judge = "judge_table"
@@ -66,6 +67,8 @@ class Table(Suite):
         for c in cases:
             if rng.random() < 0.25:
                 c["neighbours"] = True
+            elif rng.random() < 0.2:
+                c["derived"] = rng.choice([1, 2])
             univ = sorted({e for r in c["D"] for b in r for e in b})
             if c.get("past"):
                 univ = [e for e in univ if e not in c["past"]["remove"]] or univ
@@ -75,6 +78,18 @@ class Table(Suite):
     def run(self, case):
         ds = Dataset.from_raw_list([[set(b) for b in r] for r in case["D"]])
         sc = ScoringScheme(case["s"])
+        kk = 1.0
+        if case.get("scale_exp") is not None and not case.get("derived"):
+            kk = 2.0 ** case["scale_exp"]
+            sc = ScoringScheme([[x * kk for x in case["s"][0]], [x * kk for x in case["s"][1]]])
+        if case.get("derived"):
+            # the scheme is 2 * (a scheme object that has already been used to build a table), when halving is exact
+            half = [[x / 2 for x in case["s"][0]], [x / 2 for x in case["s"][1]]]
+            if [[x * 2 for x in half[0]], [x * 2 for x in half[1]]] == sc.penalty_vectors:
+                base = ScoringScheme(half)
+                PairwiseBasedAlgorithm.pairwise_cost_matrix(ds.get_positions(), base)
+                sc = base * 2 if case["derived"] == 1 else 2 * base
+                assert sc.penalty_vectors == ScoringScheme(case["s"]).penalty_vectors
         if case.get("past"):
             give_a_past(ds, case["past"], sc)
         P = ds.get_positions()
@@ -99,9 +114,9 @@ class Table(Suite):
             r2 = _random.Random(canon_hash(case["D"]))
             univ = sorted(e.value for e in ds.universe)
             cands = [gen.random_ranking(r2, univ, 1.0, r2.choice([1.0, 0.6, 0.3])) for _ in range(2)]
-        scores = [to_units(k.get_kemeny_score(Ranking([set(b) for b in c]), ds)) for c in cands]
+        scores = [to_units(k.get_kemeny_score(Ranking([set(b) for b in c]), ds) / kk) for c in cands]
         return {"cands": cands, "listing": gen.observe(ds), "U": gen.id_order(ds), "P": P.tolist(), "B": B.tolist(),
-                "MP": units_matrix(MP.tolist()), "MB": units_matrix(MB.tolist()), "scores": scores}
+                "MP": units_matrix((MP / kk).tolist()), "MB": units_matrix((MB / kk).tolist()), "scores": scores}
 
     def term(self, case, out):
         cands = clist([f"({ranking_term(c)}, {z(sc)})" for c, sc in zip(out["cands"], out["scores"])])
